@@ -186,7 +186,8 @@ def execute_program(check: Check, program: dict) -> dict:
     res = Result()
     res.log.event("program", p=program)
     before = dict(seams.STATS)
-    check.execute(program, res)
+    # the recorded program must stay the drawn one even if the code under test mutates what it is handed
+    check.execute(copy.deepcopy(program), res)
     packed = res.pack()
     packed["seam_stats"] = {k: seams.STATS[k] - before.get(k, 0) for k in seams.STATS}
     return packed
